@@ -46,6 +46,10 @@ class Command(SerializableMixin, DictableMixin):
         self.argument = match.group(2).decode('utf-8', errors='surrogateescape')
 
     def to_bytes(self):
+        if '\r' in self.argument or '\n' in self.argument:
+            # For example a percent-encoded CR LF in a URL path or password
+            raise ProtocolError('Command argument contains a line break.')
+
         return '{0} {1}\r\n'.format(self.name, self.argument).encode(
             'utf-8', errors='surrogateescape')
 
